@@ -34,5 +34,5 @@ func TestC01(t *testing.T) {
 		}
 		sectorCases(run, model, run.Scale(1500, 30000))
 	}
-	stx.Main(run, model, "C01", []string{"C01"}, []string{"flat", "flati", "hier", "hier", "ac"}, 2500, 40000)
+	stx.Main(run, model, "C01", []string{"C01"}, []string{"flat", "flati", "hier", "hier", "ac"}, 4000, 40000)
 }
